@@ -55,6 +55,8 @@ def main(tier, seed, replay=None):
     for f in ("StatusTable.v", "Methods.v"):
         r = rep.get(f, {"ok": False, "error": "missing"})
         res.oblige(f"translator: Gen/{f} regenerated from current source", r.get("ok"), r.get("error", ""))
+    r_ = vlib.translate().get("Params.v", {"ok": False, "error": "missing"})
+    res.oblige("translator: Gen/Params.v regenerated from current source", r_.get("ok"), r_.get("error", ""))
     coq_ok, out = vlib.standard_coq_obligations(res, TARGETS, THEOREMS, expect_closed=4)
     exe = vlib.ocaml_build("c05") if coq_ok else None
     if coq_ok:
